@@ -388,6 +388,22 @@ def yield_programs():
     return out
 
 
+HOSTILE_DECOS = ['@pytest.fixture(scope=\u201csession\u201d)\n', '@pytest.fixture(scope = "module")\n', "@pytest.fixture(scope=\u00e9)\n",
+                 "@pytest.fixture(scope=\n", '@pytest.fixture(scope="session\u00e9")\n', "@pytest.fixture(scope='\n",
+                 '@pytest.fixture(name="\u00e9", scope=\u00abx\u00bb)\n', "@pytest.fixture(scope=\u00a0'class')\n", "@pytest.fixture(scope=\U0001f600\n",
+                 '@pytest.fixture(autouse=True, scope="package"\n', "@pytest.fixture(scope\u00e9='module')\n", "@pytest.fixture(scope=)\n"]
+
+
+def typing_fixed():
+    """fixed incomplete documents (no random draw): decorator lines with non-ASCII or missing text around the scope
+    keyword, above the unfinished signatures the text fallback of completion has to read"""
+    out = []
+    for d in HOSTILE_DECOS:
+        for f in ("def fx(", "def fx(alpha, beta", "async def fx(\n    alpha,\n", "def fx(x):\n    y = "):
+            out.append("import pytest\n\n" + d + f)
+    return out
+
+
 def typing_form(rng):
     """a small document in one of the incomplete states an editor produces while a signature is typed"""
     t = rng.choice(TYPING_PREFIX)
